@@ -35,7 +35,7 @@ HELPERS = ("prepare_dump", "prepare_unrestricted_aminusb", "prepare_segmented")
 
 RULE = (
     " | prep: seeded random object summaries (orbitals: none / restricted with closed-shell, open-shell, [1,2,0]-like, "
-    "fractional, negative occupations, with occs_aminusb absent / all zero / summing to zero / high spin / random; "
+    "fractional (integer and fractional electron totals), negative occupations, with occs_aminusb absent / all zero / summing to zero / high spin / random; "
     "unrestricted with aufbau, holed, fractional spin channels; generalized; orbitals without occupations - basis: none / "
     "0-5 shells with 1-5 contractions incl. SP, PS, (s,s), (p,p), mixed kinds, pure - schema_name absent / four "
     "schema names / unknown - post-SCF density x lot) x 6 formats x allow_changes; non-trivial = anything but the "
@@ -363,7 +363,12 @@ def fixed_summaries():
            c12.mk("g", None, None, occs=(F(1), F(0)))[1], c12.mk("r", 1, 1, occs=(F(-1),))[1],
            c12.mk("r", 3, 3, occs=(F(1), F(1), H))[1], c12.mk("r", 0, 0, occs=())[1],
            c12.mk("u", 3, 3, occs=(F(1), F(1), F(0), F(1), Q, F(0)))[1], c12.mk("u", 3, 3, occs=(F(1), Q, F(0), F(1), F(1), F(0)))[1],
-           c12.mk("u", 3, 2, occs=(F(1), F(1), F(1), F(1), H))[1], c12.mk("r", 3, 3, occs=(F(2), H, F(0)))[1]]
+           c12.mk("u", 3, 2, occs=(F(1), F(1), F(1), F(1), H))[1], c12.mk("r", 3, 3, occs=(F(2), H, F(0)))[1],
+           # fractional electron counts (Molekel refuses them, also with allow_changes) and integer totals of fractions
+           c12.mk("r", 3, 3, occs=(F(1), F(1), H))[1], c12.mk("r", 3, 3, occs=(F(2), F(2), F(5, 4)), aminusb=(F(0), F(0), F(3, 4)))[1],
+           c12.mk("r", 2, 2, occs=(F(3, 2), H))[1], c12.mk("r", 2, 2, occs=(F(3, 2), H), aminusb=(H, H))[1],
+           c12.mk("u", 2, 1, occs=(F(1), Q, F(1)))[1], c12.mk("u", 2, 2, occs=(F(1), H, H, F(0)))[1],
+           c12.mk("r", 1, 1, occs=(F(5, 2),))[1], c12.mk("r", 1, 1, occs=(F(7, 2),))[1], c12.mk("r", 2, 2, occs=(F(-1), H))[1]]
     bases = [None, [], [s1], [sp], [ss], [ps], [pp], [dp], [cp], [sd], [s1, sp, dp], [sp, ss]]
     out = []
     for m in mos:
@@ -603,6 +608,14 @@ def prepare_variants(fmt):
             out.append((label, _mk_iodata(base, mo=occs(o, d)), unless_allowed, 1))
         elif label != "aminusb-sums-to-zero":
             out.append((label, _mk_iodata(base, mo=occs(o, d)), never_rej, 0))  # FCHK keeps occs_aminusb
+    if seg:
+        frac = always_rej if fmt == "molekel" else never_rej
+        out.append(("fractional-nelec", _mk_iodata(base, mo=occs(pad([2, 2, 1.5]))), frac, 0))
+        out.append(("fractional-nelec-unrestricted",
+                    _mk_iodata(base, mo=attrs.evolve(umo, occs=np.array(pad([1, 1, 0.5]) + pad([1, 1]), dtype=float))), frac, 0))
+        out.append(("fractional-nelec-aminusb", _mk_iodata(base, mo=occs(pad([2, 2, 1.3]), pad([0, 0, 0.7]))),
+                    always_rej if fmt == "molekel" else unless_allowed, 1))
+        out.append(("fractional-occs-integer-nelec", _mk_iodata(base, mo=occs(pad([2, 1.5, 0.5]))), never_rej, 0))
     if fmt == "fchk":
         rej = [("non-aufbau-beta-only", pad([1, 2]), None), ("non-aufbau-reversed", pad([])[: n - 5] + [2.0] * 5, None),
                ("non-aufbau-alpha-only", pad([2, 1, 1]), pad([0, -1, 1])),
